@@ -639,4 +639,46 @@ def precisionOf (f : Str) : Option Nat :=
     | _ => Option.none
   | _ => Option.none
 
+/-! ## an exact model of `'%.{p}g'` followed by `strtod`, on rationals
+
+   A finite double is a dyadic rational.  A correctly rounding `printf('%.{p}g')` prints the decimal with p significant digits
+   nearest to it (ties to even): `roundSig p`; a correctly rounding `strtod` returns the double nearest to that decimal (53
+   significant bits, ties to even, gradual underflow below 2^-1022): `roundBin`.  `rndModel p = roundBin ∘ roundSig p` is the
+   concrete `round_p` of the contract `FmtContract` (Lemmas/FileValues.lean); Lemmas/FileRound.lean proves what can be proved
+   about it, K compares it with the real `'%.*g' %` / `float()` chain (op `c14.rnd`). -/
+
+/-- `b^k` for an integer exponent -/
+def powB (b : Nat) (k : Int) : Rat := if 0 ≤ k then (b : Rat) ^ k.toNat else 1 / (b : Rat) ^ (-k).toNat
+
+/-- `⌊log_b x⌋` for `x > 0` by stepping from 0 (fuel ≥ |result|) -/
+def ilogAux (b : Nat) : Nat → Rat → Int → Int
+  | 0, _, e => e
+  | f + 1, x, e => if powB b (e + 1) ≤ x then ilogAux b f x (e + 1) else if x < powB b e then ilogAux b f x (e - 1) else e
+
+def ilog (b : Nat) (x : Rat) : Int := ilogAux b (x.num.natAbs + x.den) x 0
+
+/-- round to the nearest integer, ties to even -/
+def rhe (x : Rat) : Int :=
+  let f := x.floor
+  let r := x - (f : Rat)
+  if r < 1 / 2 then f else if 1 / 2 < r then f + 1 else if f % 2 = 0 then f else f + 1
+
+/-- `x` rounded to `p` significant base-`b` digits, ties to even; with `emin = some m` no digit below `b^m` is kept (gradual
+    underflow) -/
+def roundDig (b p : Nat) (emin : Option Int) (x : Rat) : Rat :=
+  if x = 0 then 0 else
+  let a : Rat := if x < 0 then -x else x
+  let e0 : Int := ilog b a - (p : Int) + 1
+  let e : Int := match emin with | Option.none => e0 | some m => if e0 < m then m else e0
+  let s : Rat := powB b e
+  let r : Rat := (rhe (a / s) : Rat) * s
+  if x < 0 then -r else r
+
+/-- the decimal with `p` significant digits nearest to `x` — what `'%.{p}g'` prints -/
+def roundSig (p : Nat) (x : Rat) : Rat := roundDig 10 p Option.none x
+/-- the double nearest to `x` — what `strtod` returns (overflow to ±inf is not modelled) -/
+def roundBin (x : Rat) : Rat := roundDig 2 53 (some (-1074)) x
+/-- the value a double written with `'%.{p}g'` reads back as -/
+def rndModel (p : Nat) (x : Rat) : Rat := roundBin (roundSig p x)
+
 end DadiVerif.FileFormat
